@@ -1,6 +1,7 @@
 package core
 
 import (
+	"go/token"
 	"sort"
 	"strings"
 
@@ -109,6 +110,9 @@ type Locks struct {
 	in     map[*ssa.BasicBlock]LockSet
 	Sites  []ssa.CallInstruction // every Lock/RLock call (not deferred)
 	Unlock []ssa.CallInstruction // every Unlock/RUnlock incl. deferred
+	// flags: boolean parameters of an absorbed helper that are constants at the call being analysed (`m.rangeData(f, true)`):
+	// a branch on such a parameter has one feasible edge, so `if unlockForCall { unlock }` … `if unlockForCall { lock }` stay paired.
+	flags map[*ssa.Parameter]bool
 }
 
 // AnalyzeLocks computes, for every point of fn, the set of mutexes that are held on every path reaching it.
@@ -168,7 +172,39 @@ func (l *Locks) exit() LockSet {
 }
 
 func analyzeLocksFrom(fn *ssa.Function, may bool, entry LockSet, depth int) *Locks {
-	l := &Locks{Fn: fn, may: may, depth: depth, entry: entry, in: map[*ssa.BasicBlock]LockSet{}}
+	return analyzeLocksFlags(fn, may, entry, depth, nil)
+}
+
+// flagsAt: the constant boolean arguments of a call of helper h (given the constants known in the caller).
+func flagsAt(h *ssa.Function, c ssa.CallInstruction, outer map[*ssa.Parameter]bool) map[*ssa.Parameter]bool {
+	var out map[*ssa.Parameter]bool
+	args := c.Common().Args
+	if c.Common().IsInvoke() || len(args) != len(h.Params) {
+		return nil
+	}
+	for i, p := range h.Params {
+		if !isBoolT(p.Type()) {
+			continue
+		}
+		a := unwrapNoPath(args[i])
+		v, known := false, false
+		if k, isC := a.(*ssa.Const); isC {
+			v, known = ConstBool(k)
+		} else if q, isP := a.(*ssa.Parameter); isP {
+			v, known = outer[q]
+		}
+		if known {
+			if out == nil {
+				out = map[*ssa.Parameter]bool{}
+			}
+			out[p] = v
+		}
+	}
+	return out
+}
+
+func analyzeLocksFlags(fn *ssa.Function, may bool, entry LockSet, depth int, flags map[*ssa.Parameter]bool) *Locks {
+	l := &Locks{Fn: fn, may: may, depth: depth, entry: entry, in: map[*ssa.BasicBlock]LockSet{}, flags: flags}
 	if len(fn.Blocks) == 0 {
 		return l
 	}
@@ -194,7 +230,15 @@ func analyzeLocksFrom(fn *ssa.Function, may bool, entry LockSet, depth int) *Loc
 		b := work[0]
 		work = work[1:]
 		out := l.transferBlock(b, l.in[b].clone(), nil)
-		for _, s := range b.Succs {
+		for k, s := range b.Succs {
+			if ifi, isIf := b.Instrs[len(b.Instrs)-1].(*ssa.If); isIf && len(l.flags) > 0 {
+				c, neg := stripNotPlain(ifi.Cond)
+				if p, isP := c.(*ssa.Parameter); isP {
+					if v, known := l.flags[p]; known && (v != neg) != (k == 0) {
+						continue // infeasible for this call: the flag is a constant
+					}
+				}
+			}
 			old, seen := l.in[s]
 			var nw LockSet
 			if !seen {
@@ -224,7 +268,7 @@ func (l *Locks) transferBlock(b *ssa.BasicBlock, st LockSet, until ssa.Instructi
 		}
 		if h := AbsorbedCallee(c); h != nil && l.depth < absorbDepth {
 			// the helper's net effect on the lock set: analyse it with the current set at its entry
-			sub := analyzeLocksFrom(h, l.may, st, l.depth+1)
+			sub := analyzeLocksFlags(h, l.may, st, l.depth+1, flagsAt(h, c, l.flags))
 			st = sub.exit()
 			continue
 		}
@@ -259,6 +303,19 @@ func (l *Locks) At(in ssa.Instruction) LockSet {
 		return LockSet{} // unreachable block
 	}
 	return l.transferBlock(b, st.clone(), in)
+}
+
+// Reachable reports whether the analysis reached instruction in (false: dead code, or a branch that is infeasible for the constant
+// flags the enclosing helper is called with).
+func (l *Locks) Reachable(in ssa.Instruction) bool {
+	if h := in.Parent(); h != l.Fn && l.depth < absorbDepth {
+		if sub := l.subFor(h); sub != nil {
+			return sub.Reachable(in)
+		}
+		return true
+	}
+	_, ok := l.in[in.Block()]
+	return ok
 }
 
 // FieldAccess is one access to a struct field found in a function.
@@ -372,10 +429,25 @@ func (l *Locks) subFor(h *ssa.Function) *Locks {
 	l.subs[h] = nil // cycle guard
 	var entry LockSet
 	first := true
+	var flags map[*ssa.Parameter]bool
 	for _, site := range SitesOf(h) {
 		si := site.(ssa.Instruction)
 		if len(CallChains(l.Fn, si.Parent())) == 0 {
 			continue
+		}
+		var outer map[*ssa.Parameter]bool
+		if si.Parent() == l.Fn {
+			outer = l.flags
+		}
+		fl := flagsAt(h, site, outer)
+		if first {
+			flags = fl
+		} else {
+			for p, v := range flags {
+				if w, ok := fl[p]; !ok || w != v {
+					delete(flags, p)
+				}
+			}
 		}
 		st := l.At(si)
 		if _, isDefer := si.(*ssa.Defer); isDefer {
@@ -392,7 +464,7 @@ func (l *Locks) subFor(h *ssa.Function) *Locks {
 	if first {
 		return nil
 	}
-	sub := analyzeLocksFrom(h, l.may, entry, l.depth+1)
+	sub := analyzeLocksFlags(h, l.may, entry, l.depth+1, flags)
 	l.subs[h] = sub
 	return sub
 }
@@ -415,4 +487,16 @@ func (l *Locks) exitBeforeDefers() LockSet {
 		out = LockSet{}
 	}
 	return out
+}
+
+func stripNotPlain(v ssa.Value) (ssa.Value, bool) {
+	neg := false
+	for {
+		u, ok := v.(*ssa.UnOp)
+		if !ok || u.Op != token.NOT {
+			return v, neg
+		}
+		neg = !neg
+		v = u.X
+	}
 }
